@@ -112,6 +112,13 @@ impl TomlConverter {
     fn write(&self, v: &Val, w: &mut dyn Write) -> ConvertResult {
         let toml_val = self.convert_value(v)?;
         let toml_bytes = toml::ser::to_string_pretty(&toml_val)?;
+        // The serializer emits text that is not TOML for values TOML can not
+        // express (a top level value that is not a table, an array mixing tables
+        // and plain values). Report those instead of handing out a broken file.
+        if toml::from_str::<toml::Value>(&toml_bytes).is_err() {
+            let err = SimpleError::new("Value can not be represented as a TOML document!");
+            return Err(Box::new(err));
+        }
         write!(w, "{}", toml_bytes)?;
         Ok(())
     }
